@@ -24,7 +24,7 @@ RULE = ('schedules = plans over two threads X (reloading) and Y (deciding) on on
         'P2 `Y@k; EDIT; X; Y` for EVERY library line boundary k (exhaustive), P5 `Y@f; EDIT; X@k; Y; X` with Y stopped right after it fetched a check from the store and EVERY boundary k of the reload (exhaustive), P3 `EDIT; X@k1; Y@k2; X; Y` and '
         'P4 `Y@k2; EDIT; X@k1; Y; X` sampled (thorough: exhaustive around the state-changing boundaries); scenarios: '
         'main-file edit with directory overrides, directory edit, registered defaults with a permissive default rule, '
-        'deprecated default with old-name override, deprecated default OR-merged (enforce_new_defaults off), undefined name decided by the default rule, no main file, rules differing only through rule: references; every '
+        'deprecated default with old-name override, deprecated default OR-merged (enforce_new_defaults off), undefined name decided by the default rule, default rule overridden in a policy directory, no main file, rules differing only through rule: references; every '
         'probe (name, roles) of the scenario for the deciding thread. Non-trivial = the plan pre-empts a thread strictly '
         'inside its load step; distinct = distinct (scenario, plan, probes).')
 ASSUMPTIONS = ['pre-emption points are library line boundaries; a switch inside a third-party call (YAML parsing, os.stat) '
@@ -67,6 +67,10 @@ SCEN = {
     'undefined_name_default': dict(
         old={'policy.yaml': {'default': '@', 'a': 'role:x'}}, new={'policy.yaml': {'default': '@', 'a': 'role:y'}},
         defaults=[], probes=[['ghost', []], ['a', ['x']], ['a', ['y']]]),
+    'default_overridden_in_dir': dict(
+        old={'policy.yaml': {'default': 'role:admin', 'a': 'role:x'}, 'pd/1.yaml': {'default': '@'}},
+        new={'policy.yaml': {'default': 'role:admin', 'a': 'role:y'}},
+        defaults=[], probes=[['ghost', []], ['ghost', ['admin']], ['a', ['x']], ['a', ['y']]]),
     'no_main': dict(
         old={'pd/1.yaml': {'a': '@'}}, new={'pd/1.yaml': {'a': '@', 'b': '!'}},
         defaults=[['c', '@', None]], probes=[['a', []], ['c', []]]),
